@@ -75,7 +75,7 @@ def key_args(side, kidx, variant):
         return (names[0] if len(names) == 1 else names), cols
     if variant == 1:
         return (cols[0] if len(cols) == 1 else list(cols)), cols
-    ext = [Vector(list(side.cols[c])) for c in kidx]
+    ext = [Vector(list(side.cols[c]), name=side.names[c]) for c in kidx]
     return (ext[0] if len(ext) == 1 else ext), ext
 
 
